@@ -183,11 +183,11 @@ def gen_sequence(rng, n_ops):
     pool, steps, ops_txt = [], [], []
     LAST_OPS.clear()
     for _ in range(n_ops):
-        kind = rng.choice(["new", "new", "add", "setkids", "sym", "snd", "rcp", "hash", "copy", "copywhole", "replace", "prefix"])
+        kind = rng.choice(["new", "new", "add", "setkids", "sym", "snd", "rcp", "hash", "hash", "copy", "copywhole", "replace", "prefix", "copypruned"])
         if not pool or (kind != "new" and len(pool) < 2 and kind in ("add", "setkids", "replace")):
             kind = "new"
         total = sum(t.size() for t in pool)
-        if total > 60 and kind in ("copy", "copywhole", "replace", "prefix", "new"):
+        if total > 60 and kind in ("copy", "copywhole", "replace", "prefix", "new", "copypruned"):
             kind = rng.choice(["sym", "snd", "hash", "setkids", "add"])
             if len(pool) < 2 and kind in ("add", "setkids"):
                 kind = "sym"
@@ -245,6 +245,14 @@ def gen_sequence(rng, n_ops):
             r = rng.choice(free)
             pool = pool + [copy.deepcopy(pool[r])]
             op = f"OCopyWhole {coq_nat(r)}"
+        elif kind == "copypruned":
+            # deepcopy without the children of the node but with its (copied) ancestors: the whole tree is copied, the node is a leaf in the copy
+            root, p, r = pick(rng, pool)
+            if root.parent is not None:
+                continue
+            c = node_at(root, p).deepcopy(copy_children=False, copy_params=False, copy_parent=True)
+            pool = pool + [c.get_root()]
+            op = f"OCopyPruned {coq_nat(r)} {path_term(p)}"
         elif kind == "replace":
             root, p, r = pick(rng, pool)
             root2, p2, r2 = pick(rng, pool)
@@ -300,7 +308,7 @@ def correspondence(res):
     corr = common.run_case_codes("C10", "corr", HEADER, terms, "c10_corr", chunk=60, ctype=CT)
     prop = common.run_case_codes("C10", "prop", HEADER, terms, "c10_prop", chunk=60, ctype=CT)
     res.coverage["rule"] = ("random sequences of 3-25 public tree operations (construct, add_child, set_children, symbol/sender/recipient setters, "
-                            "hash, deepcopy with/without parent, replace, prefix) over a pool of real DerivationTree objects, with read-only accessors "
+                            "hash, deepcopy with/without parent and with/without the node's children, replace, prefix) over a pool of real DerivationTree objects, with read-only accessors "
                             "(indexing, slicing, searches, flatten, equality, value) interleaved; after every step all reachable objects are dumped "
                             "(identity-canonical) and compared with the model, and the dumps are judged on their own (size/hash/parent consistency, "
                             "no aliasing, inputs of copying operations unchanged). non-trivial = >= 5 ops of >= 3 kinds; distinct by op sequence")
